@@ -5,7 +5,9 @@
 (G) Gen_FlexFec: TLC enumerates batch descriptors over the mask-field and coverage boundaries; the driver makes them
     concrete and the harness pushes them through FlexEncoder03.EncodeFec / FecInterceptor.
 (T) Trace_FlexFec: TLC lays out every media packet, parses every repair packet and performs the XOR recovery itself."""
+import json
 import random
+import re
 
 import vlib
 
@@ -43,6 +45,7 @@ LENS = [0, 1, 7, 64]
 BIG = [1199, 1460, 1500]
 NUM_SHAPES = 9
 KS = [1, 2, 5, 14, 15, 16, 45, 46, 47, 108, 109, 110]
+QUICK_NS = "{0, 1, 2, 3, 4, 5, 7, 8, 14, 15, 16, 17, 30, 31, 32, 45, 46, 47, 48, 63, 64, 65, 107, 108, 109, 110}"
 
 
 def b4(v):
@@ -250,6 +253,156 @@ def self_check_wire(ctx, rng):
         raise vlib.Infra("the specification's RTP wire layout disagrees with pion/rtp Marshal: %s" % what)
 
 
+# ------------------------------------------------------------------------------------------------------------------
+# Specification growth attached to C14: FlexEncoder20 (RFC 8627 wire format) against FlexFec20.tla.  The property names
+# FlexFEC-03 only, so a divergence here is a NOTE (evidence: coverage["growth_notes"]), never a verdict or an exit code.
+
+READING = {   # what the code does, from reading pkg/flexfec/flexfec_encoder.go (attached to a note when its clause fails)
+    "ts-recovery": "encodeFlexFecHeader XORs header bytes 4-7 with themselves (flexFecHeader[4] ^= flexFecHeader[4] ...): TS recovery is always 0",
+    "fec-header-missing-or-truncated": "encodeFlexFecHeader marshals each whole media packet into a buffer of headerSize (12/16/24) bytes; MarshalTo "
+                          "fails with a short buffer for every packet longer than that and the function returns nil: the repair packet "
+                          "then consists of the repair payload only",
+    "r-f-bits": "the version bits of the first header byte are XORed in and never cleared: R is set when an odd number of packets is covered",
+    "repair-payload": "encodeFlexFecRepairPayload XORs Packet.Payload only; RFC 8627 protects every byte after the 12-byte fixed header "
+                      "(CSRC list, header extension, payload, padding)",
+    "fec-csrc-names-stream": "the repair packet's RTP header carries an empty CSRC list; RFC 8627 4.2.1 puts the protected stream's SSRC there",
+    "panic": "n > k: an empty cover makes MediaPacketIterator.First() return nil (nil dereference); a cover with no index in 15..45 but "
+             "one >= 46 gets a 20-byte header and the 64-bit mask is written at [16:24] (slice bounds)",
+    "repair-count": "EncodeFec returns numFecPackets packets, including packets for empty covers, and checks neither consecutiveness nor "
+                    "the batch size",
+}
+TINY = [[0, 0, 0, 0], [0, 1, 0, 4], [0, 0, 1, 4]]
+
+
+def growth_scripts(rng, singles, multi, n_enc, n_multi, n_icpt):
+    out = []
+    small = [b for b in singles if b[0]["k"] <= 47]
+    pool = [rng.choice(small) if rng.random() < 0.7 else rng.choice(singles) for _ in range(n_enc)]
+    pool += [rng.choice(multi) for _ in range(n_multi)]
+    for beh in pool:
+        r = rng.random()
+        beh = [dict(d) for d in beh]
+        if r < 0.35:        # bare 12-byte packets: the only ones whose FEC header FlexEncoder20 manages to build
+            for d in beh:
+                d["sh"] = [rng.choice([0, 0, 1]) for _ in d["sh"]]
+            lens = TINY[0]
+        elif r < 0.6:
+            for d in beh:
+                d["sh"] = [rng.choice([0, 1]) for _ in d["sh"]]
+            lens = rng.choice(TINY[1:])
+        else:
+            lens = rng.choice(TINY + [LENS])
+        st = stream(rng, 1)
+        for d in beh:
+            st["batches"].append({"n": d["n"], "pkts": concrete_batch(rng, d, lens)})
+        out.append({"level": "enc20", "poison": False, "k": 0, "n": 0, "streams": [st]})
+    for _ in range(n_icpt):
+        d = dict(rng.choice(small)[0])
+        sc = icpt_script(rng, d, rng.choice([1, 2, 3]), level="icpt20")
+        if rng.random() < 0.5:
+            for st in sc["streams"]:
+                for b in st["batches"]:
+                    for pk in b["pkts"]:
+                        pk.update({"csrc": [], "x": False, "xp": 0, "xs": [], "ps": 0, "pl": []})
+                        pk.pop("plen", None)
+        out.append(sc)
+    return out
+
+
+_NOTE20 = re.compile(r'<<\s*"NOTE20",\s*(\d+),\s*(\d+),\s*"(.*?)"\s*>>', re.S)
+_PAIR = re.compile(r'<<\\?"([a-z0-9-]+)\\?",\s*(\d+)>>')
+
+
+def growth_run(ctx, scripts, tag, agg):
+    """Execute FlexEncoder20 scripts, let TLC evaluate every clause of FlexFec20 on the recorded packets, aggregate."""
+    inp, outp = ctx.path("C14-%s.in" % tag), ctx.path("C14-%s.trace" % tag)
+    vlib.write_ndjson(inp, scripts)
+    ov = vlib.overlay(ctx, vlib.harness_files(PKG, "flexfec", HARNESS), name="overlay-%s.json" % tag)
+    rc, out = vlib.go_test(ctx, PKG, ov, "^TestVerifFlexFecExec$", env={"VERIF_IN": inp, "VERIF_OUT": outp, "VERIF_SEED": ctx.seed})
+    if rc != 0 or "VERIF-INFRA" in out:
+        agg["aborted"].append("%s: harness run failed: %s" % (tag, " ".join(out[-400:].split())))
+        return
+    events = vlib.read_ndjson(outp)
+    v = vlib.validate(ctx, "Trace_FlexFec20.tla", outp, xss="256m")
+    script_of, si = {}, -1
+    for i, e in enumerate(events):
+        if e.get("a") == "reset":
+            si += 1
+        script_of[i + 1] = si
+    consumed = max(v.hw - 1, 0)
+    for i, e in enumerate(events[:consumed]):
+        if e.get("a") == "batch":
+            agg["batches"] += 1
+            agg["repairs"] += len(e["out"]) - (len(e["media"]) if e["kind"] == "icpt" and e["panic"] == "" else 0)
+    agg["traces"] += sum(1 for e in events[:consumed] if e.get("a") == "reset")
+    agg["events"] += consumed
+    if not v.accepted:
+        agg["aborted"].append("%s: TLC stopped at event %d of %d: %s" % (tag, v.hw, v.n, vlib.tlc_error(v.out)))
+    for m in _NOTE20.finditer(v.out):
+        l, nrep = int(m.group(1)), int(m.group(2))
+        e = events[l - 1]
+        agg["batches_with_notes"] += 1
+        for c, cnt in _PAIR.findall(m.group(3)):
+            a = agg["clauses"].setdefault(c, {"batches": 0, "repair_packets": 0, "example": None})
+            a["batches"] += 1
+            a["repair_packets"] += int(cnt)
+            ex = {"kind": e["kind"], "k": len(e["media"]), "n": e["n"], "repairs_observed": nrep,
+                  "wire_lengths": sorted({12 + len(x["pl"]) + x["ps"] + 4 * len(x["csrc"]) + (4 if x["x"] else 0) for x in e["media"]})[:6]}
+            if e.get("panic"):
+                ex["panic"] = e["panic"][:160]
+            if a["example"] is None or (ex["k"], ex["n"]) < (a["example"]["k"], a["example"]["n"]):
+                a["example"] = ex
+                a["example_script"] = scripts[script_of[l]] if ex["k"] <= 3 else None
+    ctx.log("(growth) %s: %d scripts, %d events, %d batches with notes" % (tag, len(scripts), consumed, agg["batches_with_notes"]))
+
+
+def growth(ctx, rng, singles, multi):
+    agg = {"batches": 0, "repairs": 0, "traces": 0, "events": 0, "batches_with_notes": 0, "clauses": {}, "aborted": []}
+    notes = []
+    try:
+        vlib.model_check(ctx, "MC_FlexFec20.tla", "MC_FlexFec20.cfg" if ctx.quick else vlib.cfg_variant(
+            ctx, "MC_FlexFec20.cfg", {"MaxK": 5, "MaxN": 5, "MaxLen": 1, "Shapes": "{0, 1, 2, 3}", "Bases": "{0, 65534}"}),
+            workers=4 if ctx.quick else 12, timeout=3000, note="growth: RFC 8627 repair packet, payload part")
+        if not ctx.quick:
+            vlib.model_check(ctx, "MC_FlexFec20.tla", "MC_FlexFec20_mask.cfg",
+                             note="growth: RFC 8627 masks for ALL k in 1..110, n in 0..110")
+            vlib.model_check(ctx, "MC_FlexFec20.tla", "MC_FlexFec20_neg.cfg", workers=2,
+                             expect_violation="Invariant RecoveryOK20 is violated", note="growth: negative control")
+        sizes = (45, 6, 10) if ctx.quick else (1100, 200, 200)
+        scripts = growth_scripts(rng, singles, multi, *sizes)
+        chunk = 100 if ctx.quick else 250
+        for i in range(0, len(scripts), chunk):
+            growth_run(ctx, scripts[i:i + chunk], "growth20-%d" % (i // chunk), agg)
+    except vlib.Infra as e:       # the growth part never decides C14
+        agg["aborted"].append("inconclusive: %s" % " ".join(str(e).split())[:500])
+    for c, a in sorted(agg["clauses"].items(), key=lambda kv: -kv[1]["batches"]):
+        ex = a["example"]
+        text = ("FlexEncoder20 (RFC 8627) diverges from FlexFec20.tla: clause %s fails in %d of %d batches (%d repair packets); "
+                "smallest example %s k=%d n=%d" % (c, a["batches"], agg["batches"], a["repair_packets"], ex["kind"], ex["k"], ex["n"]))
+        if ex.get("panic"):
+            text += " panic: %s" % ex["panic"]
+        note = {"clause": c, "batches_failing": a["batches"], "repair_packets_failing": a["repair_packets"],
+                "batches_evaluated": agg["batches"], "example": ex, "text": text}
+        if c in READING:
+            note["reading"] = READING[c]
+        if a.get("example_script"):
+            note["example_script"] = a["example_script"]
+        notes.append(note)
+        print("NOTE: growth C14/%s" % text, flush=True)
+    for t in agg["aborted"]:
+        notes.append({"clause": "(growth run incomplete)", "text": t})
+        print("NOTE: growth C14/FlexEncoder20 run incomplete: %s" % t, flush=True)
+    ctx.cov["growth_notes"] = notes
+    ctx.cov["growth_summary"] = {
+        "what": "FlexEncoder20 (pkg/flexfec/flexfec_encoder.go, RFC 8627 format) against spec/FlexFec20.tla; behaviour C14 does not "
+                "state - divergences are notes, not verdicts",
+        "traces_validated": agg["traces"], "events": agg["events"], "batches": agg["batches"],
+        "repair_packets_observed": agg["repairs"], "batches_with_notes": agg["batches_with_notes"],
+        "clauses_never_failing_note": "a clause that is absent from growth_notes held on every repair packet it was evaluated on",
+    }
+    return notes
+
+
 def run(ctx):
     rng = random.Random(ctx.seed)
     # (M)
@@ -266,23 +419,30 @@ def run(ctx):
         # two shapes, k <= 6
         vlib.model_check(ctx, "MC_FlexFec.tla", vlib.cfg_variant(ctx, "MC_FlexFec.cfg", {
             "MaxK": 6, "MaxN": 6, "MaxLen": 1, "Shapes": "{1, 2}", "Bases": "{0}"}), workers=12, timeout=3000)
-    vlib.model_check(ctx, "MC_FlexFec.tla", "MC_FlexFec_mask.cfg",
-                     note="coverage and mask fields for ALL k in 1..110, n in 0..110, no payloads")
-    vlib.model_check(ctx, "MC_FlexFec.tla", "MC_FlexFec_neg.cfg", workers=2,
-                     expect_violation="Invariant RecoveryOK is violated",
-                     note="negative control: one timestamp bit not XORed -> recovery clause fails")
+    if ctx.quick:   # every k, n at the coverage / mask-field boundaries (ALL n in the thorough tier)
+        vlib.model_check(ctx, "MC_FlexFec.tla", vlib.cfg_variant(ctx, "MC_FlexFec_mask.cfg", {"MaskNs": QUICK_NS}),
+                         note="coverage and mask fields for all k in 1..110, n at the boundaries, no payloads")
+    else:
+        vlib.model_check(ctx, "MC_FlexFec.tla", "MC_FlexFec_mask.cfg",
+                         note="coverage and mask fields for ALL k in 1..110, n in 0..110, no payloads")
+    if not ctx.quick:
+        vlib.model_check(ctx, "MC_FlexFec.tla", "MC_FlexFec_neg.cfg", workers=2,
+                         expect_violation="Invariant RecoveryOK is violated",
+                         note="negative control: one timestamp bit not XORed -> recovery clause fails")
     self_check_wire(ctx, rng)
 
     # (G) single batches: the full boundary grid
     singles = gen(ctx, {"L": 1})
+    singles.sort(key=json.dumps)      # TLC's workers print in a varying order: keep the seeded selection reproducible
     by_kn = {}
     for b in singles:
         by_kn.setdefault((b[0]["k"], b[0]["n"]), []).append(b[0])
     # (G) 2-3 successive batches through one encoder, later ones relative to the previous (k, n)
     multi = []
-    for L, ks in ((2, "{2, 15, 46, 109}"), (3, "{5, 16, 47, 110}")):
+    for L, ks in ((2, "{15, 109}"), (3, "{5, 110}")) if ctx.quick else ((2, "{2, 15, 46, 109}"), (3, "{5, 16, 47, 110}")):
         multi += gen(ctx, {"L": L, "Ks": ks, "Bases": "{65530}", "SPs": "{1}", "LPs": "{1}"})
 
+    multi.sort(key=json.dumps)
     if ctx.quick:
         n_single, n_multi, n_icpt, n_conc, n_big = 120, 30, 40, 8, 3
     else:
@@ -319,6 +479,9 @@ def run(ctx):
                                 big=rng.random() < 0.1))
     run_batch(ctx, conc, "G-conc", race=True)
 
+    # specification growth (RFC 8627 encoder): notes only
+    growth(ctx, rng, singles, multi)
+
     ctx.assumptions += [
         "FlexFec.tla is the reading of the property: FlexFEC-03 header as implemented (R = F = 0, k-bit set on the last mask "
         "field, 15/31/63-bit masks = indices 0..108), a batch whose indices cannot all be named must not be accepted",
@@ -335,6 +498,12 @@ def run(ctx):
 
 def replay(ctx, path):
     for sc in vlib.replay_scripts(path):
+        if sc.get("level", "").endswith("20"):      # growth scripts: notes only
+            agg = {"batches": 0, "repairs": 0, "traces": 0, "events": 0, "batches_with_notes": 0, "clauses": {}, "aborted": []}
+            growth_run(ctx, [sc], "growth20-replay", agg)
+            for c, a in sorted(agg["clauses"].items()):
+                print("NOTE: growth C14/FlexEncoder20 clause %s fails (%d repair packets) %s" % (c, a["repair_packets"], json.dumps(a["example"])))
+            continue
         run_batch(ctx, [sc], "replay", race=sc.get("level") == "conc")
     compact_samples(ctx)
     return vlib.finish(ctx, "model_checking", RULE)
